@@ -31,10 +31,25 @@ def _c11_escaped(case, v):
     return re.search(r'\\[{}\[\]()"\']', ab) is not None
 
 
+@family('C12_inner_text_with_children')
+def _c12_inner(case, v):
+    """an element whose text is laid out on lines of its own (it contains a line break) AND that has children: the line break that
+    is pushed after such text puts what follows (a white-space-only line, an inline child, a text-only child) at the element's own
+    indentation instead of one level deeper"""
+    def has(seq):
+        for item, op in seq:
+            if item['k'] == 'group':
+                if has(item['body']): return True
+            elif item.get('text') and '\n' in item['text'] and op == '>': return True
+        return False
+    return 'seq' in case and has(case['seq'])
+
+
 def attribute(known, prop, domname, dom, case, v):
     for f in known:
         if f.get('domain') and f['domain'] != domname: continue
         if f.get('key') and f['key'] != key_of(v): continue
+        if f.get('keys') and key_of(v) not in f['keys']: continue
         w = f.get('witness')
         if w is not None and all(case.get(k) == val for k, val in w.items()):
             return f
